@@ -26,7 +26,8 @@ CLAIMS = {
                       'hierarchy when the phase begins run, each once',
     'C10.published': 'the composite the engine publishes (processes, steps, '
                      'topology, flow) equals the hierarchy as leaf maps '
-                     'path -> object / topology / flow',
+                     'path -> object / topology / flow; so does the Composite '
+                     'object the engine was built from',
     'C10.bookkeeping': 'the engine\'s registered process paths and step paths '
                        '(graph and sequential list, no duplicates) are exactly '
                        'the live ones',
@@ -36,9 +37,11 @@ CLAIMS = {
 }
 OPTIONAL_CLAIMS = ('C10.runs',)
 GOALS = {'quick': ['structure changed with an update in flight',
-                   'step created by an operation', 'process deleted'],
+                   'step created by an operation', 'process deleted',
+                   'engine built from a Composite'],
          'thorough': ['structure changed with an update in flight',
-                      'step created by an operation', 'process deleted']}
+                      'step created by an operation', 'process deleted',
+                      'engine built from a Composite']}
 STUBS = ['pure Grow processes / Der steps logging their invocations together '
          'with a liveness check by own traversal; actor process issuing the '
          'history; Engine subclass that only brackets run_steps to mark '
@@ -89,6 +92,14 @@ def jobs(tier):
             out.append(dict(name='%s-flow-%s-%s' % (issuer, KINDS[a], KINDS[b]),
                             flavor='flow', ops=[a, b], issuer=issuer,
                             budget_s=100 if q else 900))
+    # engine built from a Composite object (kept in sync by the engine); the
+    # first compartment has no steps, later ones bring steps and flow
+    for first in ('none', 'flow'):
+        for ops in ([2], [3], [4], [5], [2, 5], [2, 3], [2, 1]):
+            out.append(dict(name='composite-%s-%s' % (
+                first, '-'.join(KINDS[k] for k in ops)), flavor='flow',
+                first_flavor=first, ops=ops, via_composite=True,
+                budget_s=100 if q else 900))
     if not q:
         for a in (2, 3, 5):
             out.append(dict(name='flow-%s-any-any' % KINDS[a], flavor='flow',
@@ -143,7 +154,11 @@ def body(ctx, cfg):
     ctx.note('issuer', issuer)
     e = hist.build(ctx, kinds, cfg['flavor'], ts_a, ts_g, d,
                    emitter={'type': 'vsym_rec', 'tag': 'A'},
-                   actor_last=actor_last, issuer=issuer)
+                   actor_last=actor_last, issuer=issuer,
+                   first_flavor=cfg.get('first_flavor'),
+                   via_composite=bool(cfg.get('via_composite')))
+    if cfg.get('via_composite'):
+        ctx.goal('engine built from a Composite')
     H = 2 * len(kinds) + 1
     T = ctx.int('T', 1, 3)
     ends = [H, H + T]
@@ -226,6 +241,22 @@ def static_claims(ctx, e, info):
               info=lambda: dict(published=sorted(map(str, pub)),
                                 hierarchy=sorted(map(str, sp)),
                                 flow=repr(e.flow), **info()))
+    comp = CTX.get('composite')
+    if comp is not None:
+        # the Composite the engine was built from describes the same hierarchy
+        cpub = {**lm(comp['processes']), **lm(comp['steps'])}
+        synced = [
+            {p: id(v) for p, v in cpub.items()} ==
+            {p: id(n.value) for p, n in sp.items()},
+            {p: get_in(comp['topology'], p) for p in cpub} ==
+            {p: n.topology for p, n in sp.items()},
+            {p: v for p, v in lm_flow(comp['flow']).items() if v is not None}
+            == {p: n.flow for p, n in sp.items() if n.flow is not None},
+        ]
+        bad = '+'.join(n for n, ok in zip(names, synced) if not ok)
+        ctx.claim('C10.published', all(synced), sig='composite-object:' + bad,
+                  info=lambda: dict(composite_flow=repr(comp['flow']),
+                                    engine_flow=repr(e.flow), **info()))
     book = []
     if hasattr(e, 'process_paths'):
         book.append(set(e.process_paths) == live_p)
